@@ -1,12 +1,537 @@
-//! C08: not yet implemented
+//! C08: configuration files (`src/cfg.rs`) and Excel lists (`src/exl.rs`) survive parse / edit / write.
+//!
+//! Abstract cases (grammar shared with `lean/PhysisModel/Driver/C08.lean`):
+//!   cfg  <config> <edits> <probes>     parse the documented file, observe, set_value*, observe
+//!   cfgw <config> <presence>           build the ConfigFile value directly, write, parse back
+//!   exl  <version> <rows> <probes>     parse the documented list file, observe, write, parse back
+//!   exlw <version> <entries>           build the EXL value directly, write, parse back
+//! The files themselves are produced by the Lean `Spec/` encoders (the `<input>` column of the
+//! driver's answer); nothing here writes the formats.
 #![allow(unused)]
 use crate::util::*;
+use physis::cfg::{ConfigFile, ConfigMap};
+use physis::exl::EXL;
+use std::collections::HashMap;
 use std::io::Write;
 
-pub fn generate(thorough: bool, seed: u64, out: &mut dyn Write) {}
+// ------------------------------------------------------------------------------------------
+// generator
+// ------------------------------------------------------------------------------------------
+
+const MULTI: [&str; 8] = ["é", "ß", "あ", "設定", "😀", "Ω", "ñ", "—"];
+
+/// text over the quantifier's alphabet: printable ASCII + multi-byte UTF-8, minus `excluded`
+fn text(rng: &mut Rng, max: usize, excluded: &[u8]) -> Vec<u8> {
+    let n = match rng.below(8) {
+        0 => 0,
+        1 => 1,
+        2..=5 => rng.range(1, 8) as usize,
+        _ => rng.range(0, max as u64) as usize,
+    };
+    let mut v = Vec::new();
+    while v.len() < n {
+        match rng.below(10) {
+            0 => v.extend_from_slice(rng.pick(&MULTI).as_bytes()),
+            1 => v.push(b' '),
+            2 | 3 => v.push(rng.range(b'0' as u64, b'9' as u64) as u8),
+            4..=6 => v.push(rng.range(b'a' as u64, b'z' as u64) as u8),
+            7 => v.push(rng.range(b'A' as u64, b'Z' as u64) as u8),
+            _ => {
+                let c = rng.range(0x20, 0x7e) as u8;
+                if !excluded.contains(&c) {
+                    v.push(c)
+                }
+            }
+        }
+    }
+    v
+}
+
+const CFG_STRUCT: &[u8] = b"<>";
+
+fn cfg_value(rng: &mut Rng) -> Vec<u8> {
+    let mut v = text(rng, 40, CFG_STRUCT);
+    // a value may carry a TAB (only the first TAB of a line separates key and value)
+    if rng.chance(1, 25) {
+        let mut at = rng.below(v.len() as u64 + 1) as usize;
+        while at < v.len() && (v[at] & 0xC0) == 0x80 {
+            at += 1; // stay on a char boundary
+        }
+        v.insert(at, 9);
+    }
+    v
+}
+
+fn pair(k: &[u8], v: &[u8]) -> String {
+    format!("{}={}", hex(k), hex(v))
+}
+
+struct CfgCase {
+    cats: Vec<(Vec<u8>, Vec<(Vec<u8>, Vec<u8>)>)>,
+    edits: Vec<(Vec<u8>, Vec<u8>)>,
+    probes: Vec<Vec<u8>>,
+}
+
+fn show_config(cats: &[(Vec<u8>, Vec<(Vec<u8>, Vec<u8>)>)]) -> String {
+    if cats.is_empty() {
+        return ".".into();
+    }
+    cats.iter()
+        .map(|(n, kvs)| {
+            let mut s = hex(n);
+            for (k, v) in kvs {
+                s.push(',');
+                s.push_str(&pair(k, v));
+            }
+            s
+        })
+        .collect::<Vec<_>>()
+        .join(";")
+}
+
+fn show_list(xs: &[String]) -> String {
+    if xs.is_empty() {
+        ".".into()
+    } else {
+        xs.join(",")
+    }
+}
+
+fn cfg_line(c: &CfgCase) -> String {
+    format!(
+        "cfg {} {} {}",
+        show_config(&c.cats),
+        show_list(&c.edits.iter().map(|(k, v)| pair(k, v)).collect::<Vec<_>>()),
+        show_list(&c.probes.iter().map(|p| hex(p)).collect::<Vec<_>>())
+    )
+}
+
+fn random_cfg(rng: &mut Rng) -> CfgCase {
+    // a small pool of keys so that keys repeat within and across categories
+    let npool = rng.range(1, 6) as usize;
+    let mut pool: Vec<Vec<u8>> = (0..npool).map(|_| text(rng, 24, b"<>")).collect();
+    if rng.chance(1, 6) {
+        pool.push(vec![]); // the empty key
+    }
+    let ncat = match rng.below(10) {
+        0 => 0,
+        1 => 1,
+        2..=7 => rng.range(1, 5),
+        _ => rng.range(5, 12),
+    } as usize;
+    let mut cats: Vec<(Vec<u8>, Vec<(Vec<u8>, Vec<u8>)>)> = Vec::new();
+    for _ in 0..ncat {
+        let mut name = text(rng, 30, b"");
+        if rng.chance(1, 10) {
+            // a name that is also a key
+            name = rng.pick(&pool).clone();
+        }
+        if name.contains(&b'<') || name.contains(&b'>') {
+            // the quantifier excludes structural characters from names
+            name.retain(|c| *c != b'<' && *c != b'>');
+        }
+        if cats.iter().any(|(n, _)| *n == name) {
+            continue; // distinct category names
+        }
+        let nkeys = match rng.below(10) {
+            0 | 1 => 0,
+            2..=7 => rng.range(1, 5),
+            _ => rng.range(5, 20),
+        } as usize;
+        let kvs = (0..nkeys)
+            .map(|_| {
+                let k = if rng.chance(3, 4) { rng.pick(&pool).clone() } else { text(rng, 24, b"<>") };
+                (k, cfg_value(rng))
+            })
+            .collect();
+        cats.push((name, kvs));
+    }
+    let nedit = if rng.chance(1, 5) { 0 } else { rng.range(1, 10) as usize };
+    let all_keys: Vec<Vec<u8>> = cats.iter().flat_map(|(_, kvs)| kvs.iter().map(|(k, _)| k.clone())).collect();
+    let edits = (0..nedit)
+        .map(|_| {
+            let k = match rng.below(6) {
+                0 => text(rng, 12, b"<>"),                                   // (most likely) absent key
+                1 if !cats.is_empty() => rng.pick(&cats).0.clone(),           // a category name as key
+                _ if !all_keys.is_empty() => rng.pick(&all_keys).clone(),     // present (maybe duplicated) key
+                _ => rng.pick(&pool).clone(),
+            };
+            (k, cfg_value(rng))
+        })
+        .collect::<Vec<_>>();
+    let mut probes: Vec<Vec<u8>> = Vec::new();
+    for (n, _) in &cats {
+        if rng.chance(2, 3) {
+            probes.push(n.clone());
+        }
+    }
+    for k in &pool {
+        if rng.chance(2, 3) {
+            probes.push(k.clone());
+        }
+    }
+    for (k, v) in &edits {
+        if rng.chance(1, 3) {
+            probes.push(k.clone());
+        }
+        if rng.chance(1, 6) {
+            probes.push(v.clone());
+        }
+    }
+    probes.push(text(rng, 10, b"<>"));
+    CfgCase { cats, edits, probes }
+}
+
+fn exl_name(rng: &mut Rng) -> Vec<u8> {
+    loop {
+        let mut n = match rng.below(12) {
+            0 => b"EXLT2".to_vec(),
+            1 => b"exlt".to_vec(),
+            2 => b"a#b".to_vec(),
+            3 => b"exd/Item".to_vec(),
+            _ => text(rng, 30, b","),
+        };
+        n.retain(|c| *c != b',');
+        if n.first() == Some(&b'#') || n == b"EXLT" {
+            continue;
+        }
+        return n;
+    }
+}
+
+fn i32_edge(rng: &mut Rng) -> i32 {
+    match rng.below(12) {
+        0 => 0,
+        1 => -1,
+        2 => i32::MAX,
+        3 => i32::MIN,
+        4 => i32::MIN + 1,
+        5 => rng.range(0, 9) as i32,
+        6 => -(rng.range(1, 9) as i32),
+        7 => rng.range(10, 100000) as i32,
+        8 => *rng.pick(&[9, 10, 99, 100, 999, 1000, 999_999_999, 1_000_000_000, -10, -100, -999_999_999, -1_000_000_000, 2_000_000_000, -2_000_000_000]),
+        _ => rng.next() as u32 as i32,
+    }
+}
+
+fn random_exl(rng: &mut Rng, direct: bool) -> String {
+    let version = i32_edge(rng);
+    let nrows = match rng.below(10) {
+        0 => 0,
+        1 => 1,
+        2..=7 => rng.range(1, 12),
+        _ => rng.range(12, 200),
+    } as usize;
+    let mut rows = Vec::new();
+    let mut names: Vec<Vec<u8>> = Vec::new();
+    for _ in 0..nrows {
+        if !direct && rng.chance(1, 6) {
+            // a comment row: `#…`, possibly looking like an entry or like the header
+            let mut t = b"#".to_vec();
+            match rng.below(5) {
+                0 => {}
+                1 => t.extend_from_slice(format!("{},{}", String::from_utf8_lossy(&exl_name(rng)), i32_edge(rng)).as_bytes()),
+                2 => t.extend_from_slice(b"EXLT,7"),
+                3 => t.extend_from_slice(b",5"),
+                _ => t.extend(text(rng, 30, b"")),
+            }
+            rows.push(format!("C{}", hex(&t)));
+        } else {
+            let n = if !names.is_empty() && rng.chance(1, 8) { rng.pick(&names).clone() } else { exl_name(rng) };
+            rows.push(format!("E{}={}", hex(&n), i32_edge(rng)));
+            names.push(n);
+        }
+    }
+    if direct {
+        return format!("exlw {} {}", version, show_list(&rows));
+    }
+    let mut probes: Vec<String> = Vec::new();
+    for n in &names {
+        if rng.chance(1, 3) {
+            probes.push(hex(n));
+            // case matters
+            let flipped: Vec<u8> = n.iter().map(|c| if c.is_ascii_alphabetic() { c ^ 0x20 } else { *c }).collect();
+            if rng.chance(1, 3) {
+                probes.push(hex(&flipped));
+            }
+        }
+    }
+    probes.push(hex(&exl_name(rng)));
+    probes.push(hex(b"EXLT"));
+    probes.push(hex(b"#c"));
+    if probes.len() > 24 {
+        probes.truncate(24);
+    }
+    format!("exl {} {} {}", version, show_list(&rows), show_list(&probes))
+}
+
+pub fn generate(thorough: bool, seed: u64, out: &mut dyn Write) {
+    let mut rng = Rng::new(seed, "C08");
+
+    // ---- exhaustive sweep of small configurations: up to 3 categories A, B, (empty name),
+    // each with 0..=2 lines over the keys {k, j}; edit k:=1 ; probes over every name and key
+    let names: [&[u8]; 3] = [b"A", b"B", b""];
+    let keysets: [&[&[u8]]; 7] = [&[], &[b"k"], &[b"j"], &[b"k", b"k"], &[b"k", b"j"], &[b"j", b"k"], &[b""]];
+    let probes: Vec<Vec<u8>> = vec![b"k".to_vec(), b"j".to_vec(), b"A".to_vec(), b"B".to_vec(), vec![], b"z".to_vec()];
+    for ncat in 0..=3usize {
+        let combos = keysets.len().pow(ncat as u32);
+        for code in 0..combos {
+            let mut c = code;
+            let mut cats = Vec::new();
+            for i in 0..ncat {
+                let ks = keysets[c % keysets.len()];
+                c /= keysets.len();
+                cats.push((
+                    names[i].to_vec(),
+                    ks.iter().enumerate().map(|(j, k)| (k.to_vec(), format!("v{}{}", i, j).into_bytes())).collect(),
+                ));
+            }
+            for edits in [vec![], vec![(b"k".to_vec(), b"1".to_vec())], vec![(b"k".to_vec(), b"1".to_vec()), (b"".to_vec(), b"".to_vec()), (b"k".to_vec(), b"2".to_vec())]] {
+                if ncat == 3 && edits.len() == 3 && !thorough {
+                    continue;
+                }
+                writeln!(out, "{}", cfg_line(&CfgCase { cats: cats.clone(), edits, probes: probes.clone() })).unwrap();
+            }
+            if ncat <= 2 {
+                // the same value built directly, with every presence pattern for key-less categories
+                for pres in 0..(1u32 << ncat) {
+                    let bits: String = (0..ncat).map(|i| if pres >> i & 1 == 1 { '1' } else { '0' }).collect();
+                    writeln!(out, "cfgw {} {}", show_config(&cats), if ncat == 0 { ".".to_string() } else { bits }).unwrap();
+                }
+            }
+        }
+    }
+
+    // ---- every 32-bit boundary id / version through the list format
+    for v in [0i32, 1, -1, 9, 10, -9, -10, 99, 100, i32::MAX, i32::MIN, i32::MAX - 1, i32::MIN + 1, 1_000_000_000, -1_000_000_000, 999_999_999, 2_000_000_000] {
+        writeln!(out, "exl {} E466f6f={} 466f6f,666f6f", v, v).unwrap();
+        writeln!(out, "exlw {} E466f6f={}", v, v).unwrap();
+    }
+    writeln!(out, "exl 0 . 466f6f").unwrap();
+    writeln!(out, "exlw 0 .").unwrap();
+
+    // ---- random stream
+    let n = if thorough { 600_000 } else { 4_000 };
+    for i in 0..n {
+        match i % 10 {
+            0..=4 => {
+                let c = random_cfg(&mut rng);
+                writeln!(out, "{}", cfg_line(&c)).unwrap();
+            }
+            5 => {
+                let c = random_cfg(&mut rng);
+                let bits: String = c.cats.iter().map(|_| if rng.chance(1, 2) { '1' } else { '0' }).collect();
+                writeln!(out, "cfgw {} {}", show_config(&c.cats), if c.cats.is_empty() { ".".to_string() } else { bits }).unwrap();
+            }
+            6..=8 => writeln!(out, "{}", random_exl(&mut rng, false)).unwrap(),
+            _ => writeln!(out, "{}", random_exl(&mut rng, true)).unwrap(),
+        }
+    }
+}
+
+// ------------------------------------------------------------------------------------------
+// run: the real code
+// ------------------------------------------------------------------------------------------
+
+fn s(b: &[u8]) -> String {
+    hex(b)
+}
+
+fn text_of(h: &str) -> Option<String> {
+    String::from_utf8(unhex(h)?).ok()
+}
+
+fn list_of<'a>(f: &'a str, sep: char) -> Vec<&'a str> {
+    if f == "." {
+        vec![]
+    } else {
+        f.split(sep).collect()
+    }
+}
+
+fn pairs_of(f: &str) -> Option<Vec<(String, String)>> {
+    list_of(f, ',')
+        .into_iter()
+        .map(|p| {
+            let (k, v) = p.split_once('=')?;
+            Some((text_of(k)?, text_of(v)?))
+        })
+        .collect()
+}
+
+/// canonical dump of a ConfigFile: categories in order with the keys the map holds for them,
+/// then the number of map entries that belong to no listed category
+fn dump_cfg(cf: &ConfigFile) -> String {
+    let body = if cf.categories.is_empty() {
+        ".".to_string()
+    } else {
+        cf.categories
+            .iter()
+            .map(|n| {
+                let mut t = hex(n.as_bytes());
+                if let Some(m) = cf.settings.get(n) {
+                    for (k, v) in &m.keys {
+                        t.push(',');
+                        t.push_str(&pair(k.as_bytes(), v.as_bytes()));
+                    }
+                }
+                t
+            })
+            .collect::<Vec<_>>()
+            .join(";")
+    };
+    let extra = cf.settings.keys().filter(|k| !cf.categories.contains(k)).count();
+    format!("{} x={}", body, extra)
+}
+
+fn queries(cf: &ConfigFile, probes: &[String]) -> String {
+    probes
+        .iter()
+        .map(|p| format!("{}{}", cf.has_key(p) as u8, cf.has_category(p) as u8))
+        .collect()
+}
+
+fn run_cfg(file: &[u8], edits: &[(String, String)], probes: &[String]) -> String {
+    let Some(mut cf) = ConfigFile::from_existing(file) else { return "none".into() };
+    let p = dump_cfg(&cf);
+    let w0 = match cf.write_to_buffer() {
+        Some(w) => {
+            if w == file {
+                "same".to_string()
+            } else {
+                hex(&w)
+            }
+        }
+        None => "none".into(),
+    };
+    let q0 = queries(&cf, probes);
+    for (k, v) in edits {
+        cf.set_value(k, v);
+    }
+    let e = dump_cfg(&cf);
+    let Some(w1) = cf.write_to_buffer() else { return "write-none".into() };
+    let q1 = queries(&cf, probes);
+    let r = match ConfigFile::from_existing(&w1) {
+        Some(cf2) => {
+            let d = dump_cfg(&cf2);
+            if d == e {
+                "ok".to_string()
+            } else {
+                format!("diff:{}", d)
+            }
+        }
+        None => "none".into(),
+    };
+    format!("P[{}]|W0[{}]|Q0[{}]|E[{}]|W1[{}]|Q1[{}]|R[{}]", p, w0, q0, e, hex(&w1), q1, r)
+}
+
+fn config_of(f: &str) -> Option<Vec<(String, Vec<(String, String)>)>> {
+    list_of(f, ';')
+        .into_iter()
+        .map(|c| {
+            let mut it = c.split(',');
+            let name = text_of(it.next()?)?;
+            let kvs = it
+                .map(|p| {
+                    let (k, v) = p.split_once('=')?;
+                    Some((text_of(k)?, text_of(v)?))
+                })
+                .collect::<Option<Vec<_>>>()?;
+            Some((name, kvs))
+        })
+        .collect()
+}
+
+fn run_cfgw(cats: Vec<(String, Vec<(String, String)>)>, presence: &str) -> String {
+    let bits: Vec<bool> = if presence == "." { vec![] } else { presence.chars().map(|c| c == '1').collect() };
+    if bits.len() != cats.len() {
+        return "bad-case".into();
+    }
+    let mut cf = ConfigFile { categories: Vec::new(), settings: HashMap::new() };
+    for ((name, kvs), present) in cats.into_iter().zip(bits) {
+        cf.categories.push(name.clone());
+        if !kvs.is_empty() || present {
+            cf.settings.insert(name, ConfigMap { keys: kvs });
+        }
+    }
+    let Some(w) = cf.write_to_buffer() else { return "write-none".into() };
+    let r = match ConfigFile::from_existing(&w) {
+        Some(cf2) => dump_cfg(&cf2),
+        None => "none".into(),
+    };
+    format!("W[{}]|R[{}]", hex(&w), r)
+}
+
+fn show_entries(es: &[(String, i32)]) -> String {
+    if es.is_empty() {
+        ".".into()
+    } else {
+        es.iter().map(|(n, i)| format!("{}={}", hex(n.as_bytes()), i)).collect::<Vec<_>>().join(",")
+    }
+}
+
+fn run_exl(file: &[u8], probes: &[String]) -> String {
+    let Some(exl) = EXL::from_existing(file) else { return "none".into() };
+    let Some(w) = exl.write_to_buffer() else { return "write-none".into() };
+    let c: String = probes.iter().map(|p| if exl.contains(p) { '1' } else { '0' }).collect();
+    let r = match EXL::from_existing(&w) {
+        Some(e2) => {
+            if e2.version == exl.version && e2.entries == exl.entries {
+                "ok".to_string()
+            } else {
+                format!("diff:{}:{}", e2.version, show_entries(&e2.entries))
+            }
+        }
+        None => "none".into(),
+    };
+    format!("V[{}]|E[{}]|W[{}]|C[{}]|R[{}]", exl.version, show_entries(&exl.entries), hex(&w), c, r)
+}
+
+fn run_exlw(version: i32, entries: Vec<(String, i32)>) -> String {
+    let exl = EXL { version, entries };
+    let Some(w) = exl.write_to_buffer() else { return "write-none".into() };
+    let r = match EXL::from_existing(&w) {
+        Some(e2) => format!("{}:{}", e2.version, show_entries(&e2.entries)),
+        None => "none".into(),
+    };
+    format!("W[{}]|R[{}]", hex(&w), r)
+}
 
 pub fn run(case: &str, input: &str) -> String {
-    "unimplemented".to_string()
+    let f: Vec<&str> = input.split(' ').collect();
+    match f.as_slice() {
+        ["cfg", file, edits, probes] => {
+            let (Some(file), Some(edits)) = (unhex(file), pairs_of(edits)) else { return "bad-case".into() };
+            let Some(probes) = list_of(probes, ',').into_iter().map(text_of).collect::<Option<Vec<_>>>() else {
+                return "bad-case".into();
+            };
+            guarded(move || run_cfg(&file, &edits, &probes))
+        }
+        ["cfgw", config, presence] => {
+            let Some(cats) = config_of(config) else { return "bad-case".into() };
+            let presence = presence.to_string();
+            guarded(move || run_cfgw(cats, &presence))
+        }
+        ["exl", file, probes] => {
+            let Some(file) = unhex(file) else { return "bad-case".into() };
+            let Some(probes) = list_of(probes, ',').into_iter().map(text_of).collect::<Option<Vec<_>>>() else {
+                return "bad-case".into();
+            };
+            guarded(move || run_exl(&file, &probes))
+        }
+        ["exlw", version, rows] => {
+            let Ok(version) = version.parse::<i32>() else { return "bad-case".into() };
+            let mut entries = Vec::new();
+            for r in list_of(rows, ',') {
+                let Some(r) = r.strip_prefix('E') else { return "bad-case".into() };
+                let Some((n, i)) = r.split_once('=') else { return "bad-case".into() };
+                let (Some(n), Ok(i)) = (text_of(n), i.parse::<i32>()) else { return "bad-case".into() };
+                entries.push((n, i));
+            }
+            guarded(move || run_exlw(version, entries))
+        }
+        _ => "bad-case".into(),
+    }
 }
 
 pub fn dump(out: &mut dyn Write) {}
